@@ -57,7 +57,7 @@ var (
 	auHosts  = []string{"h1", "h2"}
 	auRealms = []string{"ra", "rb"}
 	// (the last one is an opaque scope whose text needs quoted-pair escapes inside a challenge)
-	auRS    = []string{"repository:a:pull", "repository:a:push", "repository:b:pull", "registry:catalog:*", `odd"sc\ope`}
+	auRS    = []string{"repository:a:pull", "repository:a:push", "repository:b:pull", "registry:catalog:*", `odd"sc\ope`, "repository:b:delete"}
 	auKinds = []string{"none", "basic", "refresh", "both", "static", "cfgerr"}
 )
 
